@@ -130,6 +130,11 @@ bool aws_host_utils_is_ipv6(struct aws_byte_cursor host, bool is_uri_encoded) {
             !aws_byte_cursor_satisfies_pred(&substr, aws_isalnum)) {
             return false;
         }
+
+        /* nothing may follow the zone: a further '%' is not part of any zone id */
+        if (aws_byte_cursor_next_split(&host, '%', &substr)) {
+            return false;
+        }
     }
 
     return has_double_colon ? group_count <= 8 : group_count == 8;
